@@ -44,6 +44,9 @@ EmptyOperand(e, prm) ==
       [] OTHER -> FALSE
 DevOfCall(t, c) ==
     IF c.kind = "s_lhs" /\ c.exc = "IndexError" /\ HasNode(E(t), "trans") THEN "translate_bbox_per_row"
+    \* the same per-row box inside a product: ProductDomain.bounding_box concatenates it with the flat box of the other factor
+    ELSE IF c.kind = "s_lhs" /\ c.exc = "RuntimeError" /\ E(t).k = "prod" /\ HasNode(E(t), "trans")
+            /\ "msg" \in DOMAIN c /\ c.msg = "Tensors must have same number of dimensions: got 1 and 2" THEN "translate_bbox_per_row"
     ELSE IF SharedPiece(t, c) THEN "bool_bd_shared_piece"
     ELSE IF t.scenario.boundary /\ c.exc = "hang" /\ \E i \in DOMAIN c.prm : EmptyOperand(E(t), c.prm[i]) THEN "bool_bd_empty_operand"
     ELSE ""
